@@ -163,6 +163,10 @@ def schemas():
         'nested-fork-worlds2': ([L(a), O('Disjunction', O('Conjunction', M(c), O('Disjunction', L(M(Neg(a))), M(O('Conjunction', A(3), Neg(A(3)))))),
                                          O('Conjunction', b, Neg(b)))], A(4)),
         'nested-fork-worlds3': ([L(a), M(b), O('Disjunction', M(c), O('Disjunction', M(A(3)), L(M(Neg(a)))))], M(O('Conjunction', b, Neg(a)))),
+        # a possibility arises at a SUCCESSOR of a world where its body already holds
+        'poss-body-at-predecessor': ([a, M(c), L(M(a))], M(O('Conjunction', c, M(a)))),
+        'poss-body-at-predecessor2': ([a, M(c), L(M(a)), L(L(A(4)))], M(O('Conjunction', c, M(O('Conjunction', a, A(4)))))),
+        'poss-body-at-predecessor3': ([Neg(a), M(c), L(Neg(L(a))), L(L(b))], M(O('Conjunction', c, M(O('Conjunction', Neg(a), b))))),
         # a witness is needed at a world where some constant of the branch does not occur
         'wit-other-world': ([Fa, M(Q('Existential', x, Gx))], Gb),
         'wit-other-world2': ([Fa, Gb, M(Q('Existential', x, P(H2, x, ca)))], L(Fb)),
